@@ -244,8 +244,11 @@ UnmockShapes(NM, Rs) ==
 (***************************************************************************)
 RECURSIVE SumReq(_, _)
 SumReq(a, n) == IF n = 0 THEN 0 ELSE 10 * (a + n - 1) + SumReq(a, n - 1)
-DelegateShapes == { sh \in [recv : Recvs, nreq : 0..3, explicit : BOOLEAN, direct : 0..1, ordered : BOOLEAN, shared : BOOLEAN] :
-                      (sh.shared => sh.recv \in {"rc", "arc"}) }
+\* consume: (Rc / Arc receivers) the body's last required call is to a required method that itself takes
+\* `self: Rc<Self>` / `Arc<Self>`, handing the pointer on
+DelegateShapes == { sh \in [recv : Recvs, nreq : 0..3, explicit : BOOLEAN, direct : 0..1, ordered : BOOLEAN, shared : BOOLEAN, consume : BOOLEAN] :
+                      /\ (sh.shared => sh.recv \in {"rc", "arc"})
+                      /\ (sh.consume => sh.recv \in {"rc", "arc"} /\ sh.nreq >= 1) }
 DelegateExpected(sh) ==
   [ret |-> 1000 + SumReq(5, sh.nreq),
    body |-> <<"5", "&s">>,
